@@ -307,6 +307,7 @@ AFFINE_EVERY = {'C01': 9, 'C02': 9, 'C03': 9, 'C04': 6, 'C05': 5, 'C06': 4, 'C07
 OWN0_EVERY = {'C01': 8, 'C02': 8, 'C03': 4, 'C04': 6, 'C05': 6, 'C06': 5, 'C14': 5, 'C15': 4, 'C16': 8, 'C17': 5}
 # (C07 is not in the table: its identity clauses compare the first train with a copy of itself, a pair whose
 #  common interval is the narrower one.)
+FORMS_PROPS = {'C01', 'C02', 'C03', 'C04', 'C05', 'C06', 'C07', 'C08', 'C13', 'C14', 'C15', 'C16', 'C17', 'C18'}
 OWN0_AUTO = {'C03', 'C04', 'C05', 'C17'}
 
 
@@ -359,8 +360,19 @@ def scenarios(prop, tier, rng):
             v = own0_variant(prop, sc, n // own)
             if v is not None:
                 yield v
-        if prop in ('C04', 'C06') and n % 5 == 0 and 'raw' not in sc and 'variant' not in sc and len(sc['trains']) >= 3 \
-                and 'indices' not in sc and 'perm' not in sc or (prop in ('C04', 'C06') and n == 1):
+        if prop in FORMS_PROPS and n % 6 == 0 and 'variant' not in sc and 'values' not in sc:
+            # the same call with the keywords given in other documented FORMS: numbers as numpy scalars of another
+            # type (np.float32 / np.int64 / np.float64 - only where the value is exactly representable), `interval` as
+            # list / pair of numpy floats (a numpy ARRAY is not a Sequence and is rejected by the code), `indices` as tuple, `edges` as numpy array or numpy scalar
+            k_ = n // 6
+            v = dict(sc)
+            v['forms'] = {'mrts': ('f32', 'i64', 'f64', 'f16')[k_ % 4], 'mt': ('f64', 'f32', 'i64')[k_ % 3],
+                          'iv': ('list', 'np')[k_ % 2], 'idx': 'tuple',
+                          'edges': ('nparray', 'npscalar', 'list')[k_ % 3]}
+            v['variant'] = 'keyword forms %s' % sorted(v['forms'].items())
+            yield v
+        if prop in ('C04', 'C05', 'C06') and n % 5 == 0 and 'raw' not in sc and 'variant' not in sc and len(sc['trains']) >= 3 \
+                and 'indices' not in sc and 'perm' not in sc or (prop in ('C04', 'C05', 'C06') and n == 1):
             # the first TWO trains on narrower edges of their own, the others on a recording ten times longer;
             # every second time two one-spike trains, whose window is limited by the recording length only
             v = dict(sc)
@@ -386,6 +398,17 @@ def scenarios(prop, tier, rng):
                 v['dup'] = [k, (n // 7) % len(sc['trains'][k][0])]
                 v['variant'] = 'spike %d of train %d listed twice' % (v['dup'][1], k)
                 yield v
+        if prop == 'C14' and n % 3 == 0 and 'raw' not in sc and 'variant' not in sc:
+            # a train that is NOT selected carries a spike inside reconcile's tolerance band just outside the common
+            # edges (t_end + 2^-21, t_start - 2^-21): the selected trains' results must not depend on it
+            v = dict(sc)
+            _, TS, TE = sc['trains'][0]
+            e_ = Fr(1, 2 ** 21)
+            extra = ([TS - e_, TS + (TE - TS) / 2, TE + e_], TS, TE)
+            v['trains'] = list(sc['trains']) + [extra]
+            v['indices'] = list(sc.get('indices') or range(len(sc['trains'])))
+            v['variant'] = 'an unselected train with spikes in the tolerance band outside the edges'
+            yield v
         if prop == 'C14' and n % 4 == 0 and 'raw' not in sc:
             # a repeated spike time inside one train (sorted, same edges): every call form
             # reconciles, so all forms still have to agree (C13 + C14)
@@ -423,6 +446,34 @@ def _scenarios(prop, tier, rng):
             for s1, s2, ts, te in half_grid_pairs(2 if q else 3):
                 for mt in (0, Fr(3, 4)):
                     yield {'trains': [(s1, ts, te), (s2, ts, te)], 'kw': {'mrts': 0, 'ri': 0, 'max_tau': mt}}
+    if prop in ('C05', 'C06', 'C11'):
+        # long trains (the profiles have far more than 1000 entries) with spikes exactly on both edges
+        TL = Fr(400)
+        t0 = [Fr(k) for k in range(0, 400)]
+        t1 = [Fr(2 * k + 1, 2) for k in range(0, 400)] + [TL]
+        t2 = [Fr(3, 4) + Fr(3 * k, 2) for k in range(0, 266)]
+        if prop != 'C11':
+            sc_ = {'trains': [(t0, Fr(0), TL), (t1, Fr(0), TL), (t2, Fr(0), TL)], 'kw': {'mrts': 0, 'ri': 0, 'max_tau': 0}}
+            if prop == 'C06':
+                sc_['perm'] = [2, 0, 1]
+            yield sc_
+    if prop == 'C16':
+        # coincidences ACROSS the boundary of the averaging interval: a spike s just inside the interval, its only
+        # partner p outside but closer than max_tau, and the spike q that limits p's window further out (beyond
+        # 2*max_tau from the boundary); at the end and, mirrored, at the start of the interval
+        for lam in (Fr(1), Fr(1, 2), Fr(2)):
+            for d1, d2, g in ((lam / 8, 3 * lam / 4, 3 * lam / 2), (lam / 4, 5 * lam / 8, 3 * lam / 2), (lam / 8, lam / 2, lam)):
+                for mirror in (False, True):
+                    E = Fr(20)
+                    A = [E - 6 * lam, E - d1, E + 8 * lam]
+                    B = [E - 9 * lam / 2, E + d2, E + d2 + g]
+                    ts_, te_ = Fr(0), Fr(40)
+                    iv = [E - 3 * lam, E]
+                    if mirror:
+                        A = sorted(ts_ + te_ - x for x in A); B = sorted(ts_ + te_ - x for x in B)
+                        iv = [ts_ + te_ - iv[1], ts_ + te_ - iv[0]]
+                    yield {'trains': [(A, ts_, te_), (B, ts_, te_)], 'kw': {'mrts': 0, 'ri': 0, 'max_tau': 0},
+                           'interval': iv, 'mt1': lam, 'mt2': 2 * lam}
     if prop in ('C18', 'C07', 'C05'):
         # every combination of degenerate trains
         ts, te = Fr(0), Fr(4)
